@@ -10,6 +10,7 @@ import core
 from core import fkey, fbits, fbits_raw
 
 MODULE = "DfolsVerif.Properties.C17"
+BUILD_TARGETS = ["DfolsVerif.Driver.ModelDrv"]   # what lean/Main.lean imports
 THEOREMS = [
     "Dfols.C17.C17_labels_counts_means",
     "Dfols.C17.C17_mean_is_arithmetic_mean",
